@@ -178,7 +178,15 @@ def h_vectors(ctx):
 
 _pv = Part("rfc-vectors", h_vectors, split_depth=1)
 _pv.single_bucket_ok = True
+def h_threads(ctx):
+    """Both interoperability directions while a second call runs: joserfc's token goes to the reference verifier ('sign'), the
+    reference's token to joserfc ('verify'); operations, shared objects and oracle are those of C03's thread part."""
+    from . import c03
+    return c03.h_threads(ctx, directions=["sign", "verify"])
+
+
 PARTS = [
+    Part("thread-schedules", h_threads, bound={"quick": 1, "thorough": 2}, split_depth=3, budget={"quick": 200, "thorough": 3000}, engine="E3"),
     Part("ref-to-joserfc", h_from_ref, split_depth=2, budget={"quick": 120, "thorough": 1500}),
     Part("joserfc-to-ref", h_to_ref, split_depth=2, budget={"quick": 120, "thorough": 1500}),
     _pv,
